@@ -405,19 +405,28 @@ def scope_histories(depth):
     yield from rec([], 0)
 
 
+ENV_FIELDS = ["x", "x2", "sha256", "n_1", "UPPER", "n"]
+
+
 def run_env(case):
-    """FLOW_RECORD_IGNORE read at import: a subprocess compares two records under the environment's configuration."""
+    """FLOW_RECORD_IGNORE read at import: a child interpreter compares, for every field (names with digits, underscores, upper case) and
+    every metadata field, two records that differ in that field only: equal iff the variable lists the field."""
     h = jhash(case)
     root = os.path.dirname(os.path.dirname(os.path.abspath(__file__)))
     code = (
         "import sys; sys.path.insert(0, %r)\n"
         "from flow.record import RecordDescriptor\nimport flow.record.base as b, datetime\n"
-        "d = RecordDescriptor('e/env', [('string','x'),('varint','n')])\n"
+        "F = %r\n"
+        "d = RecordDescriptor('e/env', [('string', f) for f in F])\n"
         "g1 = datetime.datetime(2020,1,1,tzinfo=datetime.timezone.utc); g2 = datetime.datetime(2021,1,1,tzinfo=datetime.timezone.utc)\n"
-        "a = d(x='a', n=1, _source='s1', _generated=g1)\n"
+        "base = dict({f: 'v' for f in F}, _source='s1', _classification='c1', _generated=g1)\n"
+        "a = d(**base)\n"
         "print(sorted(b.IGNORE_FIELDS_FOR_COMPARISON))\n"
-        "print(a == d(x='a', n=1, _source='s1', _generated=g2), a == d(x='a', n=1, _source='s2', _generated=g1), a == d(x='b', n=1, _source='s1', _generated=g1), "
-        "a == d(x='a', n=2, _source='s1', _generated=g1), hash(a) == hash(d(x='a', n=1, _source='s1', _generated=g2)))\n" % root)
+        "out = []\n"
+        "for f, other in [(f, 'w') for f in F] + [('_source', 's2'), ('_classification', 'c2'), ('_generated', g2)]:\n"
+        "    o = d(**dict(base, **{f: other}))\n"
+        "    out.append('%%s=%%s/%%s' %% (f, a == o, hash(a) == hash(o)))\n"
+        "print(' '.join(out))\n" % (root, ENV_FIELDS))
     env = dict(os.environ)
     ign = case["ignore"]
     if ign:
@@ -427,7 +436,7 @@ def run_env(case):
     p = subprocess.run([sys.executable, "-W", "ignore", "-c", code], env=env, capture_output=True, text=True)
     viol = []
     lines = p.stdout.strip().splitlines()
-    want = "%s %s %s %s %s" % ("_generated" in ign, "_source" in ign, "x" in ign, False, "_generated" in ign)
+    want = " ".join("%s=%s/%s" % (f, f in ign, f in ign) for f in ENV_FIELDS + ["_source", "_classification", "_generated"])
     if p.returncode != 0 or len(lines) != 2:
         viol.append(("C12:env:subprocess-failed", case, {"stderr": p.stderr[-300:]}))
     elif lines[0] != repr(sorted(ign)) or lines[1] != want:
@@ -466,7 +475,7 @@ def cases(tier, seed):
         if form != "list":
             for hist in scope_histories(3):
                 yield {"kind": "scope", "events": hist, "form": form}
-    for ign in IGNORE_SETS:
+    for ign in IGNORE_SETS + [["x2"], ["sha256", "x"], ["n_1"], ["UPPER"], ["x", "x2", "_generated"], ["sha256"], ["n", "n_1"], ["_classification", "UPPER", "x2"]]:
         yield {"kind": "env", "ignore": ign}
 
 
